@@ -601,6 +601,13 @@ class Evaluator:
                         raise Uninterpretable(f"isinstance {ast.unparse(e)}")
                     if isinstance(v, Obj) and (v.tag == cname or cname in v.attrs.get("__bases__", ())):
                         res = True
+                    if cname in ("Real", "float", "int", "Number") and isinstance(v, (int, float)) and not isinstance(v, bool):
+                        if cname != "int" or isinstance(v, int):
+                            res = True
+                    if cname == "str" and isinstance(v, str):
+                        res = True
+                    if cname in ("list", "tuple", "dict") and type(v).__name__ == cname:
+                        res = True
                 return res
             if name in ("evaluate_tensora", "evaluate", "evaluate_cffi", "allocate_taco_structure", "take_ownership_of_arrays"):
                 return Call(name, args, kwargs)
